@@ -30,6 +30,7 @@ type Plan struct {
 	Lat      string `json:"lat"` // zero | inc | dec | straggler | random
 	LatSeed  int    `json:"latseed,omitempty"`
 	Fail     []int  `json:"fail,omitempty"`
+	Nested   bool   `json:"nested,omitempty"`
 	ErrKind  string `json:"errkind,omitempty"` // "" plain sentinel | deadline | canceled: the calls' errors also wrap that context error
 	Ctx      string `json:"ctx"`               // live | cancelled | cancel-at
 	CancelMs int    `json:"cancel_ms,omitempty"`
@@ -42,7 +43,7 @@ func genPlan(t *rapid.T) Plan {
 	if eff <= 0 {
 		eff = runtime.GOMAXPROCS(-1)
 	}
-	p.N = rapid.SampledFrom([]int{0, 1, 2, eff - 1, eff, eff + 1, 50, 300}).Draw(t, "n")
+	p.N = rapid.SampledFrom([]int{0, 1, 2, eff - 1, eff, eff + 1, 50, 300, 50, 300, 4096, 4160, 8192}).Draw(t, "n") // thousands: hand-out strategies change with size
 	if p.N < 0 {
 		p.N = 0
 	}
@@ -51,6 +52,12 @@ func genPlan(t *rapid.T) Plan {
 		p.Par = p.N + 5
 	}
 	p.Lat = rapid.SampledFrom([]string{"zero", "inc", "dec", "straggler", "random"}).Draw(t, "lat")
+	if p.N > 1000 {
+		p.Lat = "zero"
+	}
+	// Nested: every call of f runs a small parallel.Do / Map of its own with the same parallelism argument
+	// (re-entrant use of the package: whatever the package shares between calls must not be exhausted by it)
+	p.Nested = rapid.IntRange(0, 5).Draw(t, "nested") == 0 && p.N <= 300
 	p.LatSeed = rapid.IntRange(1, 1000).Draw(t, "latseed")
 	p.Ctx = "live"
 	if p.Fn == "DoContext" || p.Fn == "MapContext" {
@@ -75,7 +82,7 @@ func genPlan(t *rapid.T) Plan {
 				p.Fail = append(p.Fail, i)
 			}
 		}
-		p.ErrKind = rapid.SampledFrom([]string{"", "", "deadline", "canceled"}).Draw(t, "errkind")
+		p.ErrKind = rapid.SampledFrom([]string{"", "", "deadline", "canceled", "mixed"}).Draw(t, "errkind")
 		p.Ctx = rapid.SampledFrom([]string{"live", "live", "live", "cancelled", "cancel-at"}).Draw(t, "ctx")
 		p.CancelMs = rapid.SampledFrom([]int{0, 1, 5, 50, 500}).Draw(t, "cancelms")
 	}
@@ -118,7 +125,11 @@ func newProbe(p Plan, fake bool) *probe {
 	pr := &probe{p: p, calls: make([]atomic.Int32, p.N), cells: make([]int, p.N), sentinels: make([]error, p.N), fake: fake}
 	for _, i := range p.Fail {
 		if i >= 0 && i < p.N {
-			pr.sentinels[i] = callError(p.ErrKind, fmt.Sprintf("fail-%d", i))
+			kind := p.ErrKind
+			if kind == "mixed" { // every failing call fails with an error of another concrete type
+				kind = []string{"", "deadline", "struct"}[i%3]
+			}
+			pr.sentinels[i] = callError(kind, fmt.Sprintf("fail-%d", i))
 		}
 	}
 	return pr
@@ -131,6 +142,12 @@ type ctxWrap struct{ own, ctxErr error }
 func (e *ctxWrap) Error() string   { return e.own.Error() + ": " + e.ctxErr.Error() }
 func (e *ctxWrap) Unwrap() []error { return []error{e.own, e.ctxErr} }
 
+// valueErr is an error of a non-pointer concrete type.
+type valueErr struct{ inner error }
+
+func (e valueErr) Error() string { return "value error: " + e.inner.Error() }
+func (e valueErr) Unwrap() error { return e.inner }
+
 func callError(kind, name string) error {
 	s := sk.NewSentinel(name)
 	switch kind {
@@ -138,6 +155,8 @@ func callError(kind, name string) error {
 		return &ctxWrap{s, context.DeadlineExceeded}
 	case "canceled":
 		return &ctxWrap{s, context.Canceled}
+	case "struct":
+		return valueErr{s}
 	}
 	return s
 }
@@ -174,6 +193,14 @@ func (pr *probe) call(ctx context.Context, callerCtx context.Context, i int) err
 	} else {
 		runtime.Gosched()
 	}
+	if pr.p.Nested {
+		var inner atomic.Int32
+		parallel.Do(pr.p.Par, 3, func(int) { inner.Add(1) })
+		got := parallel.Map(pr.p.Par, []int{1, 2, 3}, func(x int) int { return x * 2 })
+		if inner.Load() != 3 || len(got) != 3 || got[0] != 2 || got[1] != 4 || got[2] != 6 {
+			pr.problem("a parallel.Do / Map nested inside call %d ran %d of 3 calls and returned %v", i, inner.Load(), got)
+		}
+	}
 	pr.cells[i] = i*7 + 1
 	if ctx != nil && pr.fake {
 		pr.mu.Lock()
@@ -197,7 +224,7 @@ func (pr *probe) call(ctx context.Context, callerCtx context.Context, i int) err
 
 // execute runs the plan's function with the probe and judges the result.
 func execute(p Plan, fake bool) (out vk.Outcome, verr error) {
-	if p.N < 0 || p.N > 2000 {
+	if p.N < 0 || p.N > 20000 {
 		return out, fmt.Errorf("bad plan")
 	}
 	pr := newProbe(p, fake)
@@ -403,7 +430,7 @@ func genStorm(t *rapid.T) StormPlan {
 	for k := rapid.IntRange(1, 3).Draw(t, "nfail"); k > 0; k-- {
 		p.Fail = append(p.Fail, rapid.IntRange(0, p.N-1).Draw(t, "fail"))
 	}
-	p.ErrKind = rapid.SampledFrom([]string{"", "", "deadline", "canceled"}).Draw(t, "errkind")
+	p.ErrKind = rapid.SampledFrom([]string{"", "", "deadline", "canceled", "mixed", "mixed"}).Draw(t, "errkind")
 	return p
 }
 
@@ -411,7 +438,11 @@ func runStorm(p StormPlan) (vk.Outcome, error) {
 	var out vk.Outcome
 	failing := map[int]error{}
 	for _, i := range p.Fail {
-		failing[i] = callError(p.ErrKind, fmt.Sprintf("fail-%d", i))
+		kind := p.ErrKind
+		if kind == "mixed" { // every failing call fails with an error of another concrete type
+			kind = []string{"", "deadline", "struct"}[len(failing)%3]
+		}
+		failing[i] = callError(kind, fmt.Sprintf("fail-%d", i))
 	}
 	in := make([]int, p.N)
 	for i := range in {
